@@ -626,6 +626,17 @@ func checkC20(c *Ctx, r *Report) {
 						}
 						polarityNote = "polarity checked"
 					} else {
+						lossy := ""
+						for cn := range callsInDerivation(iff.Cond) {
+							switch cn {
+							case "(time.Duration).Truncate", "(time.Duration).Round", "(time.Duration).Seconds", "(time.Duration).Minutes", "(time.Duration).Hours", "(time.Duration).Milliseconds", "(time.Time).Truncate", "(time.Time).Round", "(time.Time).Unix":
+								lossy = cn
+							}
+						}
+						if lossy != "" {
+							polarityNote = "the expiry test compares a value that went through " + lossy + ": sessions expired by less than that granularity pass as live"
+							continue
+						}
 						polarityNote = "polarity of the comparison form not recognised (structure only)"
 					}
 					found = true
